@@ -118,12 +118,19 @@ def anchor_files(prop: str) -> set[str]:
     raise AnalysisError(f"property {prop} not in properties.jsonl")
 
 
+# files outside a property's anchors whose code is part of its mechanism (reviewed): property -> files
+EXTRA_SCOPE = {
+    "C02": ("pyoda_time/_local_date.py", "pyoda_time/calendars/_year_month_day_calculator.py"),
+    "C06": ("pyoda_time/text/_offset_pattern_parser.py", "pyoda_time/time_zones/_fixed_date_time_zone.py"),
+}
+
+
 def anchor_scope(ctx: "Ctx", prop: str) -> set[str]:
     """Anchor files of a property, the files defining a base class of any class in them (the inherited code runs as part of the anchored
     classes: a calculator's conversions live in its abstract bases) and the files defining the classes they import by name."""
     key = f"anchor_scope.{prop}"
     if key not in ctx.cache:
-        files = set(anchor_files(prop))
+        files = set(anchor_files(prop)) | set(EXTRA_SCOPE.get(prop, ()))
         M = ctx.M
         for lst in M.classes.values():
             for c in lst:
